@@ -78,7 +78,7 @@ impl Policy {
     }
 }
 
-thread_local! {
+crate::tls! {
     static ME: Cell<Option<(*const Baton, usize)>> = const { Cell::new(None) };
 }
 
@@ -252,6 +252,15 @@ pub fn yield_now(site: u8) -> bool {
         // Safety: the Baton outlives every client thread (threads are scoped inside its lifetime
         // and ME is cleared in `leave`).
         Some((b, me)) => unsafe { (*b).yield_here(me, site) },
+        #[cfg(feature = "engine_c")]
+        None => {
+            // engine C: the harness's yield points (stub callbacks, element operations of `Yf`) are
+            // scheduling points of shuttle's scheduler
+            let _ = site;
+            shuttle::thread::sleep(std::time::Duration::ZERO);
+            false
+        }
+        #[cfg(not(feature = "engine_c"))]
         None => false,
     }
 }
